@@ -82,7 +82,9 @@ class StateQueries(Unit):
                 # order-preserving selection by construction of the comprehension model
                 i = z3.Int(S.fresh_name("qi"))
                 spec_pred = z3.And(ready(i), z3.Not(z3.And(hascomp(i), comp(i))))
-                meta = e.path.notes["filter_meta"][id(res)]
+                meta = res.meta
+                if meta is None:
+                    raise S.Unsupported("get_staged_tasks did not return an order-preserving selection of the staged list")
                 code_pred = meta[0].pred(i)
                 ctx.oblige("C01.S.ready_entries", z3.ForAll([i], z3.Implies(z3.And(0 <= i, i < m), code_pred == spec_pred)), None, info)
                 hs = e.get_attr(ws, "has_staged_tasks")
